@@ -116,6 +116,7 @@ def step (toks : List String) : Option String :=
            | some x =>
              let pred := readRequest x.wire
              showR pred ++ " w=" ++ b01 (pred == readRequest w))
+        | .outOfModel => "out-of-model"
         | e => if (readRequestHead b).isComplete then "body-error" else showR e)
   | ["h1.wireres", m, closing, s, w] => do
       let m ← unhex m; let b ← unhex s; let w ← unhex w
@@ -126,6 +127,7 @@ def step (toks : List String) : Option String :=
            | some x =>
              let pred := readResponse m x.wire
              showR pred ++ " w=" ++ b01 (pred == readResponse m w))
+        | .outOfModel => "out-of-model"
         | e => if (readResponseHead m b).isComplete then "body-error" else showR e)
   | "h1.relay" :: rest => relayAll rest
   | _ => none
